@@ -28,16 +28,23 @@ SameC(x, y) == \/ x.k = "any" \/ y.k = "any"
                \/ (IsNanW(x) /\ IsNanW(y))
                \/ x = y
                \/ (IsZeroW(x) /\ IsZeroW(y))
+\* C01 compares lanes "as IEEE-754 values (-0 equals +0)"; C03 / C04 say more about NEGATION of matrices and quaternions: it flips
+\* every entry exactly, so there the sign of a zero is judged too (-(+0) is -0: negation is a sign flip, not 0 - x)
+SameS(x, y) == \/ x.k = "any" \/ y.k = "any"
+               \/ (IsNanW(x) /\ IsNanW(y))
+               \/ x = y
+ExactFlipTypes == {"Mat2", "Mat3", "Mat3A", "Mat4", "DMat2", "DMat3", "DMat4", "Quat", "DQuat"}
+SameFor(ev, x, y) == IF ev.op = "neg" /\ "ty" \in DOMAIN ev /\ ev.ty \in ExactFlipTypes THEN SameS(x, y) ELSE SameC(x, y)
 FmtOf(n) == IF n = 32 THEN W32 ELSE W64
 Lanes(ev) == 1..Len(ev.a)
 
 \* ---- floats ------------------------------------------------------------------------------------
 F1ok(ev) == LET f == FmtOf(ev.f) IN
     /\ ev.op \in Ops1W /\ Len(ev.got) = Len(ev.a)
-    /\ \A i \in Lanes(ev) : SameC(Op1W(f, ev.op, DecW(ev.a[i])), DecW(ev.got[i]))
+    /\ \A i \in Lanes(ev) : SameFor(ev, Op1W(f, ev.op, DecW(ev.a[i])), DecW(ev.got[i]))
 F2ok(ev) == LET f == FmtOf(ev.f) IN
     /\ ev.op \in Ops2W /\ Len(ev.got) = Len(ev.a) /\ Len(ev.b) = Len(ev.a)
-    /\ \A i \in Lanes(ev) : SameC(Op2W(f, ev.op, DecW(ev.a[i]), DecW(ev.b[i])), DecW(ev.got[i]))
+    /\ \A i \in Lanes(ev) : SameFor(ev, Op2W(f, ev.op, DecW(ev.a[i]), DecW(ev.b[i])), DecW(ev.got[i]))
 FCok(ev) ==
     /\ ev.op \in CmpOpsW /\ Len(ev.got) = Len(ev.a)
     /\ \A i \in Lanes(ev) : ev.got[i] = (IF CmpOpW(ev.op, DecW(ev.a[i]), DecW(ev.b[i])) THEN 1 ELSE 0)
